@@ -219,8 +219,12 @@ class Evaluator:
                     return None
                 out.append(v.bits)
             return out
+        if t[0] == "cast" and "Unsize" in t[1]:
+            return self.byte_array(t[2])
         if t[0] == "call" and short(t[1]) == "<impl [T]>::concat" or (t[0] == "call" and short(t[1]).endswith("::concat")):
             arr = strip(t[2][0])
+            while arr[0] == "cast" and "Unsize" in arr[1]:
+                arr = strip(arr[2])
             if arr[0] == "aggr" and arr[1] == "array":
                 out = []
                 for o in arr[2]:
